@@ -431,6 +431,21 @@ class C09(Prop):
                 side, other = rnd.choice([('n', 'a'), ('a', 'n'), ('n', 'u'), ('u', 'n')])
                 lines += ['check save %s' % other, 'MUT %s' % side, 'check unchanged %s' % other]
             scripts.append(lines)
+        # the target variants: copy(t) / compose(u, t) into a target that holds nothing (new, or emptied) -- the caller's
+        # object is what gets filled -- or something unrelated
+        for i in range(15 if tier == 'quick' else 300):
+            lines = small_world(rnd)
+            pre = [['new t'], ['new t', 'add t [ ] sGONE -', 'del t sGONE'], ['new t', 'add t [ ] sUNRELATED -', 'setattr t sUNRELATED sz i1']][i % 3]
+            if i % 2:
+                lines += pre + ['copyinto a t', 'check fresh t copy']
+                if i % 3 != 2:
+                    lines.append('check same-content t a copy')
+            else:
+                lines += pre + ['composeinto a u t', 'check fresh t compose']
+            for j in range(rnd.randint(1, 3)):
+                side, other = rnd.choice([('t', 'a'), ('a', 't'), ('t', 'u'), ('u', 't')])
+                lines += ['check save %s' % other, 'MUT %s' % side, 'check unchanged %s' % other]
+            scripts.append(lines)
         for i in range(20 if tier == 'quick' else 400):
             lines = small_world(rnd)
             pts = [l.split()[4] for l in lines if l.startswith('add a [ ]') and l.split()[4] != '-'][:5]
@@ -575,8 +590,12 @@ class C12(Prop):
                 pts = [[rnd.uniform(-2, 2) for _ in range(dim)] for _ in range(npts)]
             metric = rnd.choice([None, None, None, 'manhattan', 'chebyshev', 'half', 'wrap'])
             names = rnd.sample([1, 2, 3, 4, 5, 6, 7, 'a', 'b', (1, 2)], npts)
-            lines = ['new p'] + ['add p [ ] %s -' % tok(x) for x in names]
-            lines.append(('embm e p %d %s' % (dim, metric)) if metric else ('emb e p %d' if i % 2 else 'embp e p %d') % dim)
+            embl = ('embm e p %d %s' % (dim, metric)) if metric else ('emb e p %d' if i % 2 else 'embp e p %d') % dim
+            if i % 4 == 3:
+                # the embedding is created first, on the still empty complex (an empty complex is falsy in Python)
+                lines = ['new p', embl] + ['add p [ ] %s -' % tok(x) for x in names]
+            else:
+                lines = ['new p'] + ['add p [ ] %s -' % tok(x) for x in names] + [embl]
             for x, p in zip(names, pts):
                 lines.append('pos e %s [ %s ]' % (tok(x), ' '.join(c.hex() for c in p)))
             from harness.oracles3 import own_distance
@@ -1017,6 +1036,9 @@ class C20(Prop):
             if len(names) >= 3:
                 lines.append('addb a [ %s %s %s ] sTRI -' % tuple(tok(x) for x in names[:3])); hi.append('sTRI')
             lines += [('embp e a %d' if rnd.random() < 0.4 else 'emb e a %d') % dim, 'check c20-begin e']
+            if i % 5 == 4:
+                # the embedding first, on the still empty complex; the points afterwards
+                lines = ['new a'] + lines[-2:] + lines[1:-2]
             allnames = [tok(x) for x in names] + hi + ['sMISSING']
             for j in range(rnd.randint(6, 16)):
                 r = rnd.random()
